@@ -134,7 +134,30 @@ class TreeVol(Suite):
                     xs.append(xs[-1] + float(math.ceil(max(t["r"][i - 1], t["r"][i]) + rng.choice([0, 1, 2]))))
                 t["xyz"] = [[x0 + x, 0.0, 0.0] for x in xs]
                 out.append({"class": "far", "tree": t, "levels": [1, 2, 3, 4], "collinear": True})
+        # the same admissible collinear trees in small units (a file in millimetres): nothing in the property depends on the unit
+        for n in [2, 3, 5]:
+            for unit in ([1 / 256, 1e-3] if not big else [1 / 256, 1e-3, 1 / 64, 1 / 1024, 64.0]):
+                for kind in ("chain", "arms"):
+                    if kind == "arms" and n < 3:
+                        continue
+                    t = collinear_case(rng, kind, n)
+                    t = dict(t, xyz=[[c * unit for c in q] for q in t["xyz"]], r=[v * unit for v in t["r"]])
+                    out.append({"class": "small-units/" + kind, "tree": t, "levels": [1, 2, 3, 4], "collinear": True, "unit": unit})
         k = 0
+        # general trees in which one end ball of some compartments contains the other (a thick soma with a thin first point
+        # close to its centre; a zero-radius tip): levels 1 and 2 are plain sums for EVERY tree
+        for n in [2, 4, 7] + ([20] if big else []):
+            for _ in range(2 if not big else 5):
+                t = gen.tree_case(rng, n, gen.pick_shape(rng, k), numbering=rng.choice(["sorted", "root0"]), coords="lattice"); k += 1
+                t = dict(t); t["r"] = list(t["r"]); t["xyz"] = [list(q) for q in t["xyz"]]
+                for i in range(1, t["n"]):
+                    if rng.random() < 0.5:
+                        p = t["pids"][i]
+                        t["r"][p] = max(t["r"][p], 4.0); t["r"][i] = rng.choice([0.0, 0.5, 1.0])
+                        d = rng.choice([0.5, 1.0, 2.0, t["r"][p] - t["r"][i]])
+                        ax = rng.randrange(3)
+                        t["xyz"][i] = list(t["xyz"][p]); t["xyz"][i][ax] += d * rng.choice([-1, 1])
+                out.append({"class": "general-contained", "tree": t, "levels": [1, 2], "collinear": False})
         for n in [1, 2, 5, 12] + ([40] if big else []):
             for _ in range(2 if not big else 6):
                 t = gen.tree_case(rng, n, gen.pick_shape(rng, k), numbering=rng.choice(["sorted", "root0"]), coords="lattice"); k += 1
@@ -161,7 +184,7 @@ class TreeVol(Suite):
         for a in case["levels"]:
             if a >= 5 and case["class"] == "arms":
                 continue  # Monte-Carlo pair term not reproduced by the model line
-            out.append((f"voltree acc={a} ids={gen.ints(range(case['tree']['n']))} pids={gen.ints(case['tree']['pids'])} nodes={nodes}", {"approx": [res["vol"][str(a)]], "rtol": 2e-5, "atol": 1e-5}))
+            out.append((f"voltree acc={a} ids={gen.ints(range(case['tree']['n']))} pids={gen.ints(case['tree']['pids'])} nodes={nodes}", {"approx": [res["vol"][str(a)]], "rtol": 2e-5, "atol": 1e-5 * min(1.0, case.get("unit", 1.0)) ** 3}))
         return out
 
     def oracle(self, case, res):
@@ -177,7 +200,8 @@ class TreeVol(Suite):
             if p >= 0:
                 h = float(np.linalg.norm(xyz[i] - xyz[p]))
                 fr += math.pi * h / 3 * (r[i] ** 2 + r[i] * r[p] + r[p] ** 2)
-        close = lambda a, b: abs(a - b) <= 3e-5 * max(1.0, abs(b))
+        u = case.get("unit", 1.0)
+        close = lambda a, b: abs(a - b) <= 3e-5 * (max(1.0, abs(b)) if u >= 1.0 else abs(b) + 1e-9 * u ** 3)
         if "1" in res["vol"] and not close(res["vol"]["1"], spheres):
             out.append(("level1", f"accuracy 1 reports {res['vol']['1']}, sum of node spheres is {spheres}"))
         if "2" in res["vol"] and not close(res["vol"]["2"], spheres + fr):
@@ -185,7 +209,7 @@ class TreeVol(Suite):
         if case["collinear"]:
             tv = profile_volume(t)
             for a in case["levels"]:
-                if a >= 3 and abs(res["vol"][str(a)] - tv) > 2e-4 * max(1.0, tv):
+                if a >= 3 and abs(res["vol"][str(a)] - tv) > 2e-4 * (max(1.0, tv) if u >= 1.0 else tv):
                     out.append((f"union-volume/{case['class']}", f"accuracy {a} reports {res['vol'][str(a)]}, true union volume {tv} "
                                 f"(x={[p[0] for p in t['xyz']]}, r={t['r']})"))
                     break
